@@ -5,7 +5,6 @@ import (
 	"go/ast"
 	"go/token"
 	"go/types"
-	"os"
 	"sort"
 	"strings"
 )
@@ -508,9 +507,6 @@ func (a *analysis) iface(fr *frame, sts []*state, ce *ast.CallExpr, f *ast.Selec
 	var out []*state
 	for _, st := range sts {
 		bound := concreteOf(st, f.X)
-		if os.Getenv("LF_DEBUG") != "" {
-			fmt.Fprintf(os.Stderr, "iface %s %s bound=%q held=%v\n", pos(ce.Pos()), types.ExprString(ce.Fun), bound, st.classes())
-		}
 		for _, c := range cands {
 			if bound == "" || c.recv == bound {
 				out = append(out, a.static(fr, []*state{st.clone()}, ce, c, nil, c.name)...)
